@@ -441,14 +441,19 @@ class Boxplot(object):
         if by is None:
             self._stats = data.apply(boxplot_stats, args=(bhc, whc, ))
         else:
-            stats = data.groupby(by).apply(boxplot_stats, bhc, whc)
+            # (own names for the data and the categories: the names given by
+            # the caller can be equal - by computed from data - or clash with
+            # the column names created by reset_index)
+            stats = data.rename("stat_value").groupby(by.rename("by_group"))\
+                        .apply(boxplot_stats, bhc, whc)
 
             # Reformat to make a 2d dataframe
             stats = stats.reset_index()
             self._stats = pd.pivot_table(stats,
                                          index="level_1",
-                                         columns=by.name,
-                                         values=stats.columns[-1])
+                                         columns="by_group",
+                                         values="stat_value")
+            self._stats.columns.name = by.name
 
     @property
     def stats(self):
